@@ -107,7 +107,7 @@ Definition subset_ann (a : ann) (labs : list name) (invert : bool) : ann :=
 (* Annotation.get_overlap(labels) *)
 Definition get_overlap_ann (a : ann) (labs : option (list name)) : list seg :=
   let b := match labs with
-           | Some (_ :: _ as l) => subset_ann a l false
+           | Some ((_ :: _) as l) => subset_ann a l false
            | _ => a
            end in
   let pairs := co_iter_ann b b in
